@@ -1,5 +1,5 @@
 (* C09 -- Block1: uploaded blocks are reassembled into exactly the body sent. *)
-From CoapV Require Import Base Header Packet UintOpt BlockValue Encode Response Accessors BlockHandler proofs.P11 proofs.P08b proofs.P09b proofs.P09c.
+From CoapV Require Import Base Header Packet UintOpt BlockValue Encode Response Accessors BlockHandler proofs.P11 proofs.P08b proofs.P09b proofs.P09c proofs.P09d.
 
 (* whatever an abandoned upload left in the buffer: once the buffer agrees with the body up to a block's offset,
    splicing that (full) block in makes it agree up to the next offset -- so blocks delivered in order, each
@@ -76,6 +76,16 @@ Theorem C09_upload_with_repeats : forall M szx body reqs st outs st', let sz := 
     payload (message lastreq) = body /\ cached_payload st' = None.
 Proof. exact upload_with_repeats_from_scratch. Qed.
 Print Assumptions C09_upload_with_repeats.
+
+(* inside the property's domain -- the budget admits the client's block size -- the acknowledgement's Block1 option
+   echoes the client's own number and size (outside it the handler proposes a smaller size and computes the number
+   from the unrounded size; the property does not speak of that case) *)
+Theorem C09_ack_echoes : forall cb overhead tp M r, b_szx cb <= 6 -> b_num cb < 65536 ->
+  overhead + block_size cb + BLOCK_OPTIONS_MAX_LENGTH <= M ->
+  negotiate (Some cb) (overhead + tp) tp M = Ok (Some r) ->
+  b_num r = b_num cb /\ b_szx r = b_szx cb /\ b_more r = (b_num cb * block_size cb + block_size cb <? tp).
+Proof. exact ack_echoes. Qed.
+Print Assumptions C09_ack_echoes.
 
 (* known finding KF_dup_final (D11): after the final block has been handed over the buffer is gone, so a second
    delivery of the final block makes up a zero-filled body and reaches the application again *)
